@@ -24,7 +24,7 @@ def main():
     c.correspond("auth")
     c.correspond("frame")
     return c.finish(
-        rule="fuzz: for every entry point (Scheme.HandleMessage in states idle/synchronising/protocol running/finished; disc.Member.HandleMessage idle/synchronising/finished incl. response bursts; "
+        rule="Also run here: auth (mutated handshakes through authenticateConnection / handleConn), frame (broken frames through readMsg, live peers down / stalled / garbling), silent-mode dispatcher states (idle, signing) and fuzzSilentQuota (a peer exceeding the buffer's topic and message quotas; the node must go on serving). fuzz: for every entry point (Scheme.HandleMessage in states idle/synchronising/protocol running/finished; disc.Member.HandleMessage idle/synchronising/finished incl. response bursts; "
              "ClassifyMsg/OnMsg of mpc/bls and mpc/ps initialised/finished; DKG runs with a participant sending mutated messages; TPS.Sign, ps.Verifier.Init/Verify, bls.Verifier.Init/Verify, SetShareData) "
              "valid messages captured from real runs are truncated (every length in thorough), extended, bit-flipped, given boundary first bytes, emptied, and ASN.1 objects are re-marshalled with lists of every "
              "wrong length and unparsable elements; message types 0,1,2,3,255 x topics of length 0,1,3,4,7,8,31,32,33. A case = one call under a panic/hang guard (5 s); distinct = distinct (entry point, input). "
